@@ -154,6 +154,8 @@ Fixpoint eval (e : expr) (env : nat -> bool) (cur : nat) (ins : list nat) (ml : 
   | EPlain a => (if env a then Match else NoMatch, ml, st)
   | EAtom a => if env a then (Match, ml ++ [mkt (MPat a) cur ins], st) else (NoMatch, ml, st)
   | EAct a => (match a with XPass => NoMatch | _ => Match end, append ml a cur ins, st)
+      (* not modelled: expr_eval_flags also sets the flag letters on the message object right away; the letters
+         survive a later matches_clear (only observable together with T3, see harness/c03.py) *)
   | EAnd l r =>
       match eval l env cur ins ml st with
       | (Match, ml', st') => eval r env cur ins ml' st'
